@@ -8,7 +8,7 @@ import logging
 import sys
 
 import pjrpc
-from pjrpc.server import AsyncDispatcher, Dispatcher, MethodRegistry, ViewMixin
+from pjrpc.server import AsyncDispatcher, Dispatcher, Method, MethodRegistry, ViewMixin
 from pjrpc.server.dispatcher import ViewMethod
 
 logging.disable(logging.CRITICAL)
@@ -108,7 +108,7 @@ def variants(names):
     return res
 
 
-def run(scn, kind, loop, reuse=False):
+def run(scn, kind, loop, reuse=False, variant=0):
     """reuse: plain `add` registrations go through ONE decorator object per registry, obtained once (`rpc = registry.add()`)"""
     disp = AsyncDispatcher() if kind == 'async' else Dispatcher()
     regs = {r: MethodRegistry(prefix=p) for r, p in PREFIX.items()}
@@ -122,20 +122,28 @@ def run(scn, kind, loop, reuse=False):
                 if r not in decorators:
                     decorators[r] = regs[r].add()
                 decorators[r](FN[op['fn']])
+            elif variant == 1:
+                # the same registration spelt add_methods(function): a plain function is added under its own name
+                (disp if r == 'd' else regs[r]).add_methods(FN[op['fn']])
             elif r == 'd':
                 disp.add(FN[op['fn']])
             else:
                 regs[r].add(FN[op['fn']])
         elif op['op'] == 'addnamed':
             name = '.'.join(op['name'])
-            if r == 'd':
+            if variant == 1 and r in ('d', 'r0'):
+                # ... and add_methods(Method(function, name)) on a prefix-less registry
+                (disp if r == 'd' else regs[r]).add_methods(Method(FN[op['fn']], name))
+            elif r == 'd':
                 disp.add(FN[op['fn']], name)
             else:
                 regs[r].add(FN[op['fn']], name=name)
         elif op['op'] == 'view':
             vp = '.'.join(op['vp']) or None
             cls = VIEWS[op.get('cls', 'V')]
-            if r == 'd' and vp is None:
+            if variant == 1 and not (r == 'd' and vp is None):
+                regs[r].view(prefix=vp)(cls)            # the decorator form
+            elif r == 'd' and vp is None:
                 disp.view(cls)
             else:
                 regs[r].view(cls, prefix=vp)
@@ -161,6 +169,7 @@ def run(scn, kind, loop, reuse=False):
     s = dict(scn)
     s['kind'] = kind
     s['reuse'] = reuse
+    s['variant'] = variant
     return {'scn': s, 'ev': ev}
 
 
@@ -170,5 +179,5 @@ if __name__ == '__main__':
     out = []
     for i, s in enumerate(json.load(open(sys.argv[1]))):
         h = zlib.crc32(json.dumps(s, sort_keys=True).encode())        # variants by content, not by position
-        out.append(guarded(run)(s, 'async' if h % 2 else 'sync', loop, reuse=(h // 2) % 2 == 1))
+        out.append(guarded(run)(s, 'async' if h % 2 else 'sync', loop, reuse=(h // 2) % 4 == 1, variant=1 if (h // 2) % 4 == 2 else 0))
     json.dump(out, open(sys.argv[2], 'w'))
